@@ -58,7 +58,7 @@ def cell_entry_rule(F, S, R):
     reorg is identical to the one originally created (creating block, epoch, tx index, data size)."""
     want = {
         "attach": {"output": [], "block_hash": [r"call:.*HeaderView::hash"], "block_number": [r"call:.*HeaderView::number"],
-                   "block_epoch": [r"call:.*HeaderView::epoch"], "index": [r"var:tx_index|upvar:tx_index"], "data_size": [r"call:.*::len$"]},
+                   "block_epoch": [r"call:.*HeaderView::epoch"], "index": [r"call:.*BlockView::transactions$", r"call:.*Iterator::enumerate$", r"!call:.*outputs_with_data_iter$"], "data_size": [r"call:.*::len$"]},
         "detach": {"output": [], "block_hash": [r"field:.*TransactionInfo\.block_hash"], "block_number": [r"field:.*TransactionInfo\.block_number"],
                    "block_epoch": [r"field:.*TransactionInfo\.block_epoch"], "index": [r"field:.*TransactionInfo\.index"], "data_size": [r"call:.*::len$"]},
     }
@@ -81,7 +81,9 @@ def cell_entry_rule(F, S, R):
                 continue
             c = cs[0]
             have = c.body.operand_sources(c.args[1]) if len(c.args) > 1 else set()
-            if srcs and not K.src_match(have, srcs):
+            forbidden = [p[1:] for p in srcs if p.startswith("!")]
+            srcs = [p for p in srcs if not p.startswith("!")]
+            if (srcs and not K.src_match(have, srcs)) or any(K.rx(p).search(h) for p in forbidden for h in have):
                 R.bad(key, "%s: CellEntry.%s is not derived from %s (%s)" % (fn, f, srcs, c.where()), [c.where()])
             else:
                 R.ok(key, "%s: CellEntry.%s derives from %s" % (K.short(fn), f, srcs or "the output"), [c.where()])
